@@ -22,6 +22,11 @@ struct Scene {
 typedef std::function<void(Scene&)> Fn;
 struct Op { const char* name; bool target_is_T; bool consumes_A; int tkind; Fn fn; };  // tkind: 0 empty target, 1 owned other size, 2 owned same size
 double uop(double x, double y) { return x - 2 * y; }
+// a user operation that needs memory for every element (the allocation cannot be optimised away: it escapes)
+void* volatile aop_sink;
+struct AllocatingOp {
+  double operator()(double x, double y) const { std::unique_ptr<double> p(new double(x - 2 * y)); aop_sink = p.get(); return *p; }
+};
 
 std::vector<Op> catalogue() {
   using squids::iCommutator; using squids::ACommutator; using squids::ElementwiseProduct; using squids::ElementwiseOperation;
@@ -37,6 +42,8 @@ std::vector<Op> catalogue() {
   OP("construct-from-commutator", false, false, 1, s.R.reset(new SU_vector(iCommutator(*s.A, *s.B))));
   OP("construct-from-evolve", false, false, 1, s.R.reset(new SU_vector(s.A->Evolve(*s.Hd, 0.4))));
   OP("construct-from-fast-evolve", false, false, 1, s.R.reset(new SU_vector(s.A->Evolve(s.tbl))));
+  OP("construct-from-elementwise-allocating-functor", false, false, 1, s.R.reset(new SU_vector(ElementwiseOperation(AllocatingOp(), *s.A, *s.B))));
+  OP("construct-from-elementwise-allocating-functor(rvalue operand)", false, true, 1, s.R.reset(new SU_vector(ElementwiseOperation(AllocatingOp(), std::move(*s.A), *s.B))));
   OP("make_aligned", false, false, 1, s.R.reset(new SU_vector(SU_vector::make_aligned(s.ds))));
   OP("Projector", false, false, 1, s.R.reset(new SU_vector(SU_vector::Projector(s.ds, 1))));
   OP("Identity", false, false, 1, s.R.reset(new SU_vector(SU_vector::Identity(s.ds))));
@@ -54,6 +61,8 @@ std::vector<Op> catalogue() {
     o.push_back(Op{tk == 0 ? "T=evolve(empty target)" : tk == 1 ? "T=evolve(resizing)" : "T=evolve(same size)", true, false, tk, [](Scene& s) { *s.T = s.A->Evolve(*s.Hd, 0.4); }});
     o.push_back(Op{tk == 0 ? "T=fast-evolve(empty target)" : tk == 1 ? "T=fast-evolve(resizing)" : "T=fast-evolve(same size)", true, false, tk, [](Scene& s) { *s.T = s.A->Evolve(s.tbl); }});
     o.push_back(Op{tk == 0 ? "T=elementwise(empty target)" : tk == 1 ? "T=elementwise(resizing)" : "T=elementwise(same size)", true, false, tk, [](Scene& s) { *s.T = ElementwiseOperation(uop, *s.A, *s.B); }});
+    o.push_back(Op{tk == 0 ? "T=elementwise-allocating-functor(empty target)" : tk == 1 ? "T=elementwise-allocating-functor(resizing)" : "T=elementwise-allocating-functor(same size)", true, false, tk, [](Scene& s) { *s.T = ElementwiseOperation(AllocatingOp(), *s.A, *s.B); }});
+    o.push_back(Op{tk == 0 ? "T=elementwise-allocating-functor(rvalue operand, empty target)" : tk == 1 ? "T=elementwise-allocating-functor(rvalue operand, resizing)" : "T=elementwise-allocating-functor(rvalue operand, same size)", true, true, tk, [](Scene& s) { *s.T = ElementwiseOperation(AllocatingOp(), std::move(*s.A), *s.B); }});
     o.push_back(Op{tk == 0 ? "T=rvalue-sum(empty target)" : tk == 1 ? "T=rvalue-sum(resizing)" : "T=rvalue-sum(same size)", true, true, tk, [](Scene& s) { *s.T = std::move(*s.A) + *s.B; }});
     o.push_back(Op{tk == 0 ? "T=move(empty target)" : tk == 1 ? "T=move(resizing)" : "T=move(same size)", true, true, tk, [](Scene& s) { *s.T = std::move(*s.A); }});
   }
@@ -62,6 +71,8 @@ std::vector<Op> catalogue() {
   OP("A+=commutator(A,B)", false, false, 2, *s.A += iCommutator(*s.A, *s.B));
   OP("A-=anticommutator(B,A)", false, false, 2, *s.A -= ACommutator(*s.B, *s.A));
   OP("A=A.Evolve(H,t)", false, false, 2, *s.A = s.A->Evolve(*s.Hd, 0.4));
+  OP("A+=elementwise-allocating-functor(A,B)", false, false, 2, *s.A += ElementwiseOperation(AllocatingOp(), *s.A, *s.B));
+  OP("T+=elementwise-allocating-functor(A,B)", true, false, 2, *s.T += ElementwiseOperation(AllocatingOp(), *s.A, *s.B));
   // chained expressions that materialise temporaries
   OP("T=(A+B)*2", true, false, 1, *s.T = (*s.A + *s.B) * 2.0);
   OP("T=-(A+B)", true, false, 1, *s.T = -(*s.A + *s.B));
@@ -129,6 +140,21 @@ void flag_invariants(vh::Ctx& c, Scene& s, const std::string& what) {
     if (!ledger::is_live_array(base)) { c.violation("C16:owner-of-released-block", what + ": " + nm[i]); return; }
     for (int k = 0; k < no; k++) if (owned[k] == base) { c.violation("C16:two-owners-of-one-block", what + ": " + nm[i]); return; }
     owned[no++] = base;
+  }
+  // a vector that owns nothing (the externally backed bystander aside) must not keep referring to storage that
+  // another vector owns or that the cache holds: its next same-size assignment would write into it
+  std::vector<const void*> cstore;
+  access::cached_storage(cstore);
+  for (int i = 0; i < 6; i++) {
+    if (!vs[i] || vs[i] == s.E.get()) continue;
+    auto p = access::peek(*vs[i]);
+    if (p.isinit || !p.components) continue;
+    for (int j = 0; j < 6; j++) {
+      if (j == i || !vs[j]) continue;
+      auto q = access::peek(*vs[j]);
+      if (q.isinit && q.components == p.components) { c.violation("C16:non-owner-still-refers-to-owned-block", what + ": " + nm[i] + " refers to the storage of " + nm[j]); return; }
+    }
+    for (auto q : cstore) if (q == p.components) { c.violation("C16:non-owner-still-refers-to-cached-block", what + ": " + nm[i]); return; }
   }
   // cached blocks are live and distinct
   for (size_t i = 0; i < cached.size(); i++) {
